@@ -383,6 +383,36 @@ def run_input(ctx, i):
                 ctx.case(case["m"], case["k"], case["d"], tagf, subset, "dicts", nontrivial=True,
                          cls=["formalism:" + tagf] + ["dict_slot:" + k for k in subset],
                          sample=lambda: {"objects": desc, "formalism": tagf, "dictionary_slots": list(subset)})
+    # the w-tilde tables of a dataset used in between by an inversion of OTHER data (a model image subtracted, handed over through
+    # DatasetInterface with the dataset's own tables): a later inversion of the identical dataset that takes the same tables as a
+    # preload - or no preload at all on that dataset object - still gives the fresh outputs
+    if "w_tilde" in per_formalism and i % 3 == 0 and not only_functions:
+        ref = per_formalism["w_tilde"]
+        st = aa.SettingsInversion(use_w_tilde=True, use_positive_only_solver=positive, no_regularization_add_to_curvature_diag_value=1e-3)
+        if ctx.begin("inp:%d:w_tilde:tables_used_by_other_data_in_between" % i):
+            try:
+                ds_t = twin()
+                wt = ds_t.w_tilde
+                n_ = int((~case["m"]).sum())
+                other = aa.Array2D(values=case["d"][~case["m"]] - (0.2 + rng.random(n_)) * float(np.abs(case["d"]).max()), mask=case["mask"])
+                di = aa.DatasetInterface(data=other, noise_map=ds_t.noise_map, grids=ds_t.grids, convolver=ds_t.convolver, w_tilde=wt)
+                _ = _np(aa.Inversion(dataset=di, linear_obj_list=objs, settings=st).data_vector)
+                reg_idx = np.concatenate([np.arange(a, b) for (a, b), d in zip(_ranges(objs), desc) if d["regularized"]]).astype(int)
+                A_ = (ref["F"] + ref["H"])[np.ix_(reg_idx, reg_idx)]
+                Hr_ = ref["H"][np.ix_(reg_idx, reg_idx)]
+                tolc = 1e-9 * abs(ref["logdet_c"]) + 1e-14 * len(reg_idx) * float(np.linalg.cond(A_)) + 1e-12
+                tolh = 1e-9 * abs(ref["logdet_h"]) + 1e-14 * len(reg_idx) * float(np.linalg.cond(Hr_)) + 1e-12
+                for how, make in (("same dataset object, no preloads", lambda: aa.Inversion(dataset=ds_t, linear_obj_list=objs, settings=st)),
+                                  ("fresh identical dataset, Preloads(w_tilde=the shared tables)", lambda: aa.Inversion(dataset=twin(), linear_obj_list=objs, settings=st, preloads=aa.Preloads(w_tilde=wt)))):
+                    q = outputs(aa, make())
+                    bad = same(ctx, q, ref, tolc, tolh, positive)
+                    ctx.check(not bad, "preload.transparent", how=how, history="the same w-tilde tables were used by an inversion of other data before", differing=bad,
+                              got={k: q[k] for k in bad[:2]}, expected={k: ref[k] for k in bad[:2]}, formalism="w_tilde", **W0)
+            except aa.exc.InversionException:
+                ctx.skipped["tables_in_between:InversionException"] += 1
+            except Exception as e:
+                ctx.check(False, "preload.transparent", how="w-tilde tables used by other data in between", exception=repr(e)[:300], **W0)
+            ctx.case(case["m"], case["k"], "tables_in_between", nontrivial=True, cls=["formalism:w_tilde", "w_tilde_tables_shared_with_other_data"], sample=None)
     # mappers built through the public pipeline (mesh.mapper_grids_from with a border relocator) for TWO source planes, with the
     # Preloads filled by the library's grid / mapper producers from two earlier identical fits: same outputs as without preloads
     if i % 4 == 1 and not only_functions:
